@@ -58,7 +58,7 @@ def styleFromList( styleName, specArray, spacing, showAllLevels):
     displayLevels = 0
     listStyle = ListStyle(name=styleName)
     numFormatPattern = re.compile("([1IiAa])")
-    cssLengthPattern = re.compile("([^a-z]+)\\s*([a-z]+)?")
+    cssLengthPattern = re.compile("([^a-z]+)\\s*([a-z]+)?", re.IGNORECASE)
     m = cssLengthPattern.search( spacing )
     if (m != None):
         cssLengthNum = float(m.group(1))
